@@ -267,12 +267,18 @@ def make_replay(h, prop, tier, logdir):
            "--output-format", "terse"] + BASE_FLAGS + ["-Z", "concrete-playback",
            "--concrete-playback=inplace"] + harness_args(h)
     t = h.timeout or TIER_TIMEOUT[tier]
-    try:
-        p = subprocess.run(cmd, cwd=rdir, env=kani_env(), stdout=subprocess.PIPE,
-                           stderr=subprocess.STDOUT, text=True, timeout=t * 2)
-        out = p.stdout
-    except subprocess.TimeoutExpired:
-        out = "timeout"
+    out = ""
+    for attempt in (1, 2):
+        try:
+            p = subprocess.run(cmd, cwd=rdir, env=kani_env(), stdout=subprocess.PIPE,
+                               stderr=subprocess.STDOUT, text=True, timeout=t * 2)
+            out = p.stdout
+        except subprocess.TimeoutExpired:
+            out = "timeout"
+        # cargo-kani dying without a verdict (killed by a signal, e.g. under memory pressure) is
+        # retried once; a second crash leaves the counterexample unconfirmed (INCONCLUSIVE).
+        if "VERIFICATION:-" in out or out == "timeout":
+            break
     open(os.path.join(logdir, f"{h.name}.playback-gen.log"), "w").write(out)
     tests = []
     blk = re.compile(r"/// Test generated for harness `[^`]*`\n///\n/// Check for `([a-z_]+)`: (.*?)\n\n#\[test\]\nfn (kani_concrete_playback_[A-Za-z0-9_]+)\(\) \{.*?\n\}\n", re.S)
